@@ -44,8 +44,8 @@ def flatten(text: str) -> list:
     return merged
 
 
-def rule_place_header(ck: Check, repo: Repo) -> None:
-    r = ck.rule("R1", "place_header: blank-line policy table (only whitespace adjacent to the header may change)")
+def rule_place_header(ck: Check, repo: Repo, rid: str = "R1") -> None:
+    r = ck.rule(rid, "place_header: blank-line policy table (only whitespace adjacent to the header may change)")
     q = f"{HD}.place_header"
     fn = repo.func(q)
     ck.analysed_fn(q)
@@ -171,8 +171,8 @@ def rule_shebang(ck: Check, repo: Repo) -> None:
         r.violation(f"{HD}._extract_shebang", "extraction", "leading lines with the prefix are moved (kept verbatim, ends included)", repo.loc(es))
 
 
-def rule_partition(ck: Check, repo: Repo) -> None:
-    r = ck.rule("R4", "_find_first_spdx_comment partitions the text: before + comment + newline + after == text")
+def rule_partition(ck: Check, repo: Repo, rid: str = "R4") -> None:
+    r = ck.rule(rid, "_find_first_spdx_comment partitions the text: before + comment + newline + after == text")
     q = f"{HD}._find_first_spdx_comment"
     fn = repo.func(q)
     ck.analysed_fn(q)
